@@ -185,6 +185,23 @@ func pathologies(quick bool) [][2]string {
 			return b.String()
 		}()+"println(i) }\n")
 	}
+	// rings of mutually recursive pointer-wrapper types (valid Go) used in a lookup
+	for _, n := range []int{1, 2, 3, 7, 8, 9, 10, 16, 17, 33, 100} {
+		var b strings.Builder
+		for i := 0; i < n; i++ {
+			fmt.Fprintf(&b, "type T%d *T%d\n", i, (i+1)%n)
+		}
+		add("ptr-wrapper-ring-"+strconv.Itoa(n), b.String()+"\nfunc main() { var x T0; println(x); var a any = x; _, ok := a.(interface{ M() }); println(ok) }\n")
+	}
+	// run-time exceptions raised while package-level variables are initialised (no call frame yet)
+	add("global-init-index-range", "var a = []int{1}\nvar i = 5\nvar x = a[i]\n\nfunc main() { println(x) }\n")
+	add("global-init-nil-deref", "var p *int\nvar x = *p\n\nfunc main() { println(x) }\n")
+	add("global-init-div-zero", "var z = 0\nvar x = 1 / z\n\nfunc main() { println(x) }\n")
+	add("global-init-nil-map-write", "var m map[string]int\nvar x = func() int { m[\"a\"] = 1; return 1 }()\n\nfunc main() { println(x) }\n")
+	add("global-init-type-assert", "var a any = 1\nvar x = a.(string)\n\nfunc main() { println(x) }\n")
+	add("global-init-slice-bounds", "var a = []int{1, 2}\nvar n = 5\nvar x = a[:n]\n\nfunc main() { println(len(x)) }\n")
+	add("global-init-explicit-panic", "var x = func() int { panic(\"boom\") }()\n\nfunc main() { println(x) }\n")
+	add("global-init-conversion", "var a = []int{1}\nvar x = [2]int(a)\n\nfunc main() { println(x[0]) }\n")
 	add("rec-type-direct", "type T struct{ t T }\n\nfunc main() { var x T; println(x) }\n")
 	add("rec-type-mutual", "type A struct{ b B }\ntype B struct{ a A }\n\nfunc main() { var x A; println(x) }\n")
 	add("rec-type-alias", "type A B\ntype B A\n\nfunc main() { var x A; println(x) }\n")
